@@ -32,6 +32,7 @@ EXPECTED = {
 CONFIGS = {
     "default": ["--workspace"],
     "nodefault": ["--workspace", "--no-default-features"],
+    "allfeatures": ["--workspace", "--all-features"],
 }
 
 
